@@ -106,6 +106,9 @@ class Harness(cm.BaseA):
                 V.append(("C16/composition", f"{n}: compositions differ"))
             if a._labels != b._labels or len(a._history) != len(b._history) or any(not np.array_equal(x, y) for x, y in zip(a._history, b._history)):
                 V.append(("C16/history", f"{n}: EVO {a._labels} vs Fluent {b._labels}"))
+        for k in ("E", "F"):
+            for d in cm.callers_arrays_unchanged(W[k], config):
+                V.append(("C16/volumes", d))
         # records: identical except trough position fields, which decode to the same real well
         if len(re_) != len(rf):
             V.append(("C16/records", f"EVO emitted {len(re_)} records, Fluent {len(rf)}"))
